@@ -212,6 +212,26 @@ reg('C11', 'exploration',
     'E4-bounded-exhaustive-enumeration')
 
 
+reg('C07', 'model_checking',
+    'Explicit enumeration on the real DomainManager: boxes of two widths '
+    '(the narrow one puts a particle into both ghost layers), every '
+    'assignment of {periodic, mirror, none} to the axes in 1-3 D, n_layers '
+    '{1,2}, 1-3 particles on a lattice containing points outside the box, '
+    'on the faces, inside the layer, exactly at the threshold and beyond, '
+    'one or two arrays, copied-property subsets (list and dict form), '
+    'unequal h; move-then-update histories of 3 rounds. After every update '
+    'the ghost multiset (positions, copied properties, reversed normal '
+    'velocity) is compared with an independently constructed image set, '
+    'the update is repeated to show idempotence, and neighbour queries are '
+    'checked against all interacting periodic/mirror images.',
+    'Trusted: the independent image construction (product of per-axis '
+    'choices; threshold-exact sources optional); LinkedListNNPS for the '
+    'neighbour leg. Not covered: more than 3 particles per configuration, '
+    'GPU domain manager.',
+    'bounded-exhaustive placement enumeration + short update histories '
+    'against a reference model', 'E2-history-bfs')
+
+
 def main():
     props = [json.loads(l) for l in open(os.path.join(V, 'properties.jsonl'))]
     checks = []
